@@ -52,18 +52,12 @@ Theorem C19_large_fits : forall size, medium_limit < size <= LARGE_SIZE_LIMIT ->
 Proof. exact large_fits. Qed.
 Print Assumptions C19_large_fits.
 
-(* huge requests, for every page size rpmalloc accepts (2^8 .. 2^32), as long as size + header
-   does not wrap *)
-Theorem C19_large_huge_fit_partial : forall psh size, page_shift_ok psh -> 0 <= size ->
-  size + SPAN_HEADER_SIZE < W64 ->
-  size <= usable_size psh (BHuge (huge_pages psh size)) /\ 1 <= huge_pages psh size.
-Proof. exact huge_fits. Qed.
-Print Assumptions C19_large_huge_fit_partial.
-
-(* ... and the full statement over all 64-bit sizes is false for the code as it is *)
-Theorem C19_huge_wrap_refuted : ~ huge_fit_full.
-Proof. exact huge_wrap_refuted. Qed.
-Print Assumptions C19_huge_wrap_refuted.
+(* huge requests, for every page size rpmalloc accepts (2^8 .. 2^32) and EVERY 64-bit size: the
+   request is either refused (NULL, only when size + header + one page overflows size_t) or the
+   mapped pages hold it after the header *)
+Theorem C19_large_huge_fit : huge_fit_full.
+Proof. exact huge_fit. Qed.
+Print Assumptions C19_large_huge_fit.
 
 (* realloc as L_alloc issues it: a block kept in place is large enough *)
 Theorem C19_realloc_inplace_fits : forall psh b size oldsize, page_shift_ok psh -> valid_block psh b ->
@@ -124,7 +118,7 @@ Theorem C19_span_machine_history : forall psh c, valid_class c -> forall ops,
   match run (class_bc c) (chunk_of psh (class_bs c) (class_bc c)) class_empty [] ops with
   | COk (cs, live) => class_inv (class_bc c) cs live /\ NoDup live /\ (forall b, In b live -> 0 <= snd b < class_bc c)
   | CErrOracle | CErrBadFree => True
-  | CErrCorrupt | CErrUnmodelled => False
+  | CErrCorrupt | CErrUnmodelled | CNull => False
   end.
 Proof. exact span_machine_history. Qed.
 Print Assumptions C19_span_machine_history.
